@@ -119,6 +119,11 @@ class H2Protocol:
             },
         )
 
+        # The local settings above are in force from the start (not
+        # pending acknowledgement), so h2 never applies the header
+        # list limit to its decoder - do so directly.
+        self.connection.decoder.max_header_list_size = config.h2_max_header_list_size
+
         self.keep_alive_requests = 0
         self.send = send
         self.server = server
